@@ -216,7 +216,7 @@ func (c *Checker) manyResets(M uint64, n int) {
 	rep.States++
 	b := &Battle{M: M, R: M, W: M, P: 2, C: 4, ResetAt: -n} // a negative ResetAt below -1 marks a reset series of that length
 	al := Alphabet(M)
-	b.Ws = []WSpec{{[]g.Instruction{al[8], al[5]}, 0, 0}, {[]g.Instruction{al[3]}, 0, 4}}
+	b.Ws = []WSpec{{[]g.Instruction{al[2], al[0]}, 0, 0}, {[]g.Instruction{al[2]}, 0, 4}} // JMP 0 / DAT and JMP 0: they stay where they are
 	var pan string
 	func() {
 		defer func() {
@@ -241,8 +241,16 @@ func (c *Checker) manyResets(M uint64, n int) {
 			if k%9973 != 0 {
 				off = M/2 + uint64(k%5)
 			}
+			if k%13 == 5 {
+				// a spawn that wraps past the end of the core while nothing else touches the low cells
+				off = M - 1
+			}
 			sim.SpawnWarrior(0, g.Address(off))
-			sim.SpawnWarrior(1, g.Address(off+2))
+			if k%13 == 5 {
+				sim.SpawnWarrior(1, g.Address(M/2))
+			} else {
+				sim.SpawnWarrior(1, g.Address(off+2))
+			}
 			sim.RunCycle()
 			sim.RunCycle()
 			rep.Transitions += 2
